@@ -25,6 +25,56 @@ var deferConds = map[string][]string{
 // c13Cases: every query with at most N nodes containing at least one fragment, every
 // non-empty subset of its fragments marked @defer (variants: plain, labelled, if:$f,
 // if:$t), times every plan with at most d deviations.
+// c13ShapesCases: deferred fragments on objects of the shapes probe - inside nested lists
+// (paths with several indices), on struct-field objects, on method-bound and map-backed objects.
+func (s *Shared) c13ShapesCases(tier string) []SchedCase {
+	var out []SchedCase
+	one, two := 1, 2
+	type qc struct {
+		q     string
+		base  Plan   // keeps list fan-out small (outer list of one element: two inner elements)
+		extra []Plan // deviations on top of base
+	}
+	with := func(base Plan, kv ...string) Plan {
+		p := planOf(kv...)
+		for k, v := range base {
+			p[k] = v
+		}
+		return p
+	}
+	g1, gr1, ms1 := planOf("m.grid", "len1"), planOf("m.gridReq", "len1"), planOf("ms", "len1")
+	corpus := []qc{
+		{`{m{grid{id ... @defer{colorR}}}}`, g1, []Plan{with(g1, "m.grid[0][1].colorR", "error"), with(g1, "m.grid[0]", "null")}},
+		{`{m{gridReq{id ... @defer(label:"g"){h{methCtxReq}}}}}`, gr1, []Plan{with(gr1, "m.gridReq[0][0].h.methCtxReq", "error"), with(gr1, "m.gridReq[0][1]", "null")}},
+		{`{ms{kidsPlain{id ... @defer{colorR}}}}`, ms1, []Plan{with(ms1, "ms[0].kidsPlain[1].colorR", "error")}},
+		{`{h{id ... @defer{methCtxReq methCtx{id ... @defer{methCtxReq}}}}}`, nil, []Plan{planOf("h.methCtx.methCtxReq", "error"), planOf("h.methCtxReq", "error"), planOf("h.methCtx", "null")}},
+		{`{mo{id sub{id ... @defer{colorR}}}}`, nil, []Plan{planOf("mo.sub.colorR", "error")}},
+	}
+	if tier == "thorough" {
+		corpus = append(corpus,
+			qc{`{m{tags ... @defer{grid{id ... @defer{colorR}}}}}`, g1, []Plan{with(g1, "m.grid[0][0].colorR", "error")}},
+			qc{`{ms{kidPlain{... @defer(label:"k"){colorR}} kidsPlain{... @defer(label:"k"){colorR}}}}`, ms1, nil})
+	}
+	for _, c := range corpus {
+		op := Op{Text: c.q}
+		if _, errs := s.Parse(op); errs != nil {
+			panic("shapes defer corpus: " + c.q + ": " + errs[0].Message)
+		}
+		bound := &one
+		if tier == "thorough" {
+			bound = &two
+		}
+		base := c.base
+		if base == nil {
+			base = Plan{}
+		}
+		for _, p := range append([]Plan{base}, c.extra...) {
+			out = append(out, SchedCase{Case: Case{Op: op, Plan: p, Yield: true}, Name: op.Text + " | " + p.Key(), Bound: bound})
+		}
+	}
+	return out
+}
+
 func (s *Shared) c13Cases(tier string) []SchedCase {
 	n, d := 3, 1
 	variants := []string{`@defer`, `@defer(label:"a")`, `@defer(if:$f)`}
